@@ -852,7 +852,9 @@ def jump_threads(ev, env):
     memo[mk] = {}
     live = body.live_blocks()
     threads = {}
-    for (S, si, pk, variants) in body.discr_switches():
+    dsw = body.discr_switches()
+    gd = None
+    for (S, si, pk, variants) in dsw:
         if S not in live:
             continue
         chain, cur = [S], S
@@ -878,6 +880,15 @@ def jump_threads(ev, env):
             except RecursionError:
                 continue
             vn = variant_of(v, set(names.values()))
+            if vn is None:
+                # not decided by the value, but perhaps by an earlier test of the same place that this predecessor lies
+                # behind (a `match` arm re-tested by drop elaboration)
+                if gd is None:
+                    gd = Guards(ev, body, env)
+                for sw2, vals2 in gd.dominating_conditions(p_):
+                    hit = [d for d in dsw if d[0] == sw2["block"] and d[2] == pk and d[0] != S]
+                    if hit and len(vals2) == 1 and vals2[0] != "otherwise":
+                        vn = dict(hit[0][3]).get(vals2[0])
             if vn is None or vn not in by_name:
                 continue
             T = tg.get(by_name[vn], term["otherwise"])
@@ -886,9 +897,11 @@ def jump_threads(ev, env):
     return threads
 
 
-def reachable_threaded(body, start, avoid, threads):
-    """Body.reachable with decided tests followed only along their decided edge"""
+def reachable_threaded(body, start, avoid, threads, avoid_edges=(), edges_out=None):
+    """Body.reachable with decided tests followed only along their decided edge; `edges_out` (a set) receives the edges
+    taken, a thread contributing the decided edge of its test"""
     avoid = set(avoid)
+    avoid_edges = set(avoid_edges)
     if start in avoid:
         return set()
     seen = {start}
@@ -897,13 +910,19 @@ def reachable_threaded(body, start, avoid, threads):
     while st:
         b = st.pop()
         for s_ in body.succ(b):
+            if (b, s_) in avoid_edges:
+                continue
             th = threads.get((b, s_))
             if th is not None:
                 T, chain = th
-                if any(c in avoid for c in chain):
+                if any(c in avoid for c in chain) or (chain[0], T) in avoid_edges:
                     continue
                 extra.update(chain)
+                if edges_out is not None:
+                    edges_out.add((chain[0], T))
                 s_ = T
+            elif edges_out is not None:
+                edges_out.add((b, s_))
             if s_ in seen or s_ in avoid:
                 continue
             seen.add(s_)
